@@ -80,9 +80,18 @@ def alternatives(eco, text):
     raise ValueError(eco)
 
 
-def mk(eco, ast, text, pv):
+BUILDS = [b"+build-5", b"+b.1", b"+21AF26D3----117B344092BD", b"+001", b"+exp.sha.5114f85", b"+-"]
+
+
+def mk(eco, ast, text, pv, rng=None):
     sysi = ECO_SYS[eco]
     ptexts = [ranges.print_version(eco, v) for v in pv]
+    if rng is not None and eco in ("npm", "cargo"):
+        # SemVer build metadata ([0-9A-Za-z-] identifiers separated by dots) never changes the
+        # answer: the same candidate is asked again with a build tag
+        extra = [(v, t + rng.choice(BUILDS)) for v, t in zip(pv, ptexts) if rng.random() < 0.25]
+        pv = pv + [v for v, _ in extra]
+        ptexts = ptexts + [t for _, t in extra]
     keys = set((0, c) for c in ctable.candidates(text)) | set((0, p) for p in ptexts)
     if sysi == 3:
         keys.add((0, b"0"))
@@ -137,7 +146,7 @@ def gen_cases(ctx):
                 if ast is None:
                     continue
                 pv = [q for q in (canon_idents(v) for v in pv) if q is not None]
-            cases.append(mk(eco, ast, text, pv))
+            cases.append(mk(eco, ast, text, pv, rng))
     for eco, ast, text, pv in CORPUS:
         cases.append(mk(eco, ast, text, pv))
     return cases
@@ -157,8 +166,9 @@ def spec_answers(ctx, cases):
 
 
 class Hit:
-    def __init__(self, idx, what, probe_i, observed, required):
+    def __init__(self, idx, what, probe_i, observed, required, entry=False):
         self.idx, self.what, self.probe_i, self.observed, self.required = idx, what, probe_i, observed, required
+        self.entry = entry            # a disagreement between entry points: never a known class
 
 
 def oracle(ctx, cases, impl_lines, spec):
@@ -177,9 +187,18 @@ def oracle(ctx, cases, impl_lines, spec):
         yes = no = 0
         for k, (row, want) in enumerate(zip(rows, sp)):
             ctx.evaluations += 1
-            got = 0 if row == [b"verr"] else row[0]
-            if row == [b"verr"]:
+            verr = row[0] == b"verr"
+            got = 0 if verr else row[0]
+            ms, mr = row[-2], row[-1]
+            if verr:
                 ctx.count("candidate-rejected:%s" % eco)
+            if b"+" in c["ptexts"][k]:
+                ctx.count("candidate:%s:build-metadata" % eco)
+            # the string entry points must give the answer of MatchVersion
+            if ms != got:
+                hits.append(Hit(idx, "Constraint.Match(version string) differs from MatchVersion on the parsed version", k, ms, got, entry=True))
+            if mr != -1 and mr != ms:
+                hits.append(Hit(idx, "resolve.MatchRequirement differs from Constraint.Match for the same candidate", k, mr, ms, entry=True))
             yes += got
             no += 1 - got
             if eco in ("npm", "cargo") and c["pv"][k][3]:
@@ -281,7 +300,7 @@ def classify(ctx, tables, cases, impl_lines, model_lines, hits, spec):
     for h in hits:
         c = cases[h.idx]
         cls = None
-        if impl_lines[h.idx] == model_lines[h.idx]:
+        if impl_lines[h.idx] == model_lines[h.idx] and not h.entry:
             cls = class_of(c, h, events.get(h.idx, set()), impl_lines[h.idx])
         out.append((h, cls if cls in open_ids else None, cls))
     return out
@@ -476,7 +495,7 @@ def run(ctx):
     verdict = confirm_with_tools(ctx, cases, hits, spec)
     for h, known, cls in classify(ctx, tables, cases, impl_lines, model_lines, hits, spec):
         c = cases[h.idx]
-        if h.idx in verdict:
+        if h.idx in verdict and not h.entry:
             tv = verdict[h.idx]
             if tv is None or tv[h.probe_i] != spec[h.idx][h.probe_i]:
                 ctx.count("hit-not-confirmed-by-the-tool")
